@@ -134,21 +134,29 @@ def classify(case, out):
     return tags
 
 
+class _KeepL2(vlib.Component):
+    """h_net.c prints the same L2 part in both modes (it is made of the harness's own trace of the scripted kernel): the black-box
+    fallback of vlib.build_component must not switch the L2 comparison off for these components (vlib sets comp.ignore_l2)."""
+    ignore_l2 = property(lambda self: False, lambda self, v: None)
+
+
 def components(ctx):
+    # bb_ok (notes/blackbox.md): h_net.c names the members of struct sock_addr (util/sock_internal.h) to build the address list
+    # of `connect`; with -DHC_BLACKBOX the same addresses come from sock_resolve_one().  No library file is #included.
     return [
-        vlib.Component("netio", "h_net.c", SRCS, ["netio"], gen_io,
+        _KeepL2("netio", "h_net.c", SRCS, ["netio"], gen_io,
                        nontrivial=lambda c: sum(1 for o in c if o.startswith(("krecv", "ksend", "kacc"))) >= 1 and
                                             sum(1 for o in c if o.startswith(("read", "write", "accept"))) >= 1,
                        rule="requests (buflen 1..300, min from {0,1,buflen-1,buflen,random}) on 6 descriptors interleaved with scripted kernel "
                             "answers (segments of 1..600 bytes, EAGAIN/EWOULDBLOCK/EINTR, EOF, hard error), cancels, back-to-back requests on one fd; "
                             "non-trivial = at least one request and one kernel script; distinct by hash of the op list",
-                       classify=classify, ldflags=LDFLAGS),
-        vlib.Component("connect", "h_net.c", SRCS, ["netio"], gen_conn,
+                       classify=classify, ldflags=LDFLAGS, bb_ok=True),
+        _KeepL2("connect", "h_net.c", SRCS, ["netio"], gen_conn,
                        nontrivial=lambda c: any(o.startswith('connect ') and len(o.split()[2]) >= 2 for o in c),
                        rule="ALL address-outcome strings over {fail-now, success, async-fail, hang} up to length 4 (quick) / 6 (thorough), with and "
                             "without per-address timeout, plus random lists up to 12 with cancellation before/after the first loop run; "
                             "non-trivial = at least two addresses",
-                       classify=classify, ldflags=LDFLAGS),
+                       classify=classify, ldflags=LDFLAGS, bb_ok=True),
     ]
 
 
